@@ -928,6 +928,8 @@ struct Runner<'a> {
     err_after_commit: u64,
     fault_absorbed_ok: u64,
     reader_interleavings: u64,
+    /// which read supplies the second component of a content ("summary" unless a reader group says otherwise)
+    sum_kind: String,
 }
 
 impl Runner<'_> {
@@ -988,7 +990,10 @@ impl Runner<'_> {
         }
         let reader = g.reader.take().unwrap();
         // what is durable now (second connection) and what the writer's own connection sees
-        let (dig, sum, per) = timed("observe_end", || observe(&reader, s.net));
+        let (dig, mut sum, per) = timed("observe_end", || observe(&reader, s.net));
+        if self.sum_kind != "summary" {
+            sum = reader_call(&self.sum_kind, &reader, s);
+        }
         let wdig = match timed("wdump", || dump(&conn)) {
             Ok((d, _)) => d,
             Err(e) => format!("err:{e}"),
@@ -1064,7 +1069,23 @@ fn positions(ex: &Exec, opname: &str, quick: bool, rng: &mut ChaChaRng) -> Vec<u
     }
     // heavy operations (a scan re-hashes note commitment trees: 50-130 ms a run) get fewer positions in quick
     let heavy = opname.starts_with("scan");
-    let (cap_w, cap_r, interior) = if !quick { (2500, 1500, 1500) } else if heavy { (45, 15, 40) } else { (90, 40, 64) };
+    let (cap_w, cap_r, interior) = if !quick { (2500, 1500, 1500) } else if heavy { (50, 15, 48) } else { (120, 50, 64) };
+    // every distinct statement text of the operation: the first step of its first and of its last
+    // execution, and a step in the middle of the first
+    let mut first: BTreeMap<&str, usize> = BTreeMap::new();
+    let mut last: BTreeMap<&str, usize> = BTreeMap::new();
+    for (i, st) in ex.stmts.iter().enumerate() {
+        first.entry(st.sql.as_str()).or_insert(i);
+        last.insert(st.sql.as_str(), i);
+    }
+    for (sql, i) in &first {
+        let st = &ex.stmts[*i];
+        let next = ex.stmts.get(i + 1).map(|x| x.step).unwrap_or(n);
+        set.insert(st.step + 1);
+        set.insert(st.step + 1 + (next.saturating_sub(st.step + 1)) / 2);
+        let l = &ex.stmts[last[sql]];
+        set.insert(l.step + 1);
+    }
     bw.shuffle(rng);
     br.shuffle(rng);
     for k in bw.into_iter().take(cap_w).chain(br.into_iter().take(cap_r)) {
@@ -1088,6 +1109,128 @@ fn positions(ex: &Exec, opname: &str, quick: bool, rng: &mut ChaChaRng) -> Vec<u
         }
     }
     set.into_iter().filter(|k| *k >= 1 && *k <= n).collect()
+}
+
+// ------------------------------------------------------------------------------------------------
+// the converse interleaving: the whole write operation runs at a chosen VM step of a snapshot read
+
+struct RCount {
+    steps: u64,
+    bounds: Vec<u64>,
+}
+
+unsafe extern "C" fn rcount_progress(ctx: *mut c_void) -> c_int {
+    unsafe { (*(ctx as *mut RCount)).steps += 1 };
+    0
+}
+
+unsafe extern "C" fn rcount_trace(mask: c_uint, ctx: *mut c_void, _p: *mut c_void, _x: *mut c_void) -> c_int {
+    if mask == ffi::SQLITE_TRACE_STMT as c_uint {
+        unsafe {
+            let c = &mut *(ctx as *mut RCount);
+            let s = c.steps;
+            c.bounds.push(s);
+        }
+    }
+    0
+}
+
+unsafe extern "C" fn dyn_progress(ctx: *mut c_void) -> c_int {
+    let f = unsafe { &mut *(ctx as *mut &mut dyn FnMut() -> bool) };
+    if f() { 1 } else { 0 }
+}
+
+/// The snapshot read under test: WalletRead::get_wallet_summary (documented as one snapshot:
+/// unchecked_transaction()).  (The pool-migration store's mined_height oracle filters its answer by the
+/// fully-scanned height read in the same snapshot, so a torn read of it is not observable in its result.)
+fn reader_call(kind: &str, conn: &Connection, s: &State) -> String {
+    match kind {
+        "summary" => summary(conn, s.net),
+        _ => unreachable!(),
+    }
+}
+
+fn run_reader_group(rn: &mut Runner, s: &State, op: &OpDef, kind: &str, quick: bool, rng: &mut ChaChaRng, only_k: Option<u64>) {
+    rn.restore(s, false);
+    let (dig, _sum, pre) = {
+        let c = open(&rn.run_db);
+        observe(&c, s.net)
+    };
+    // the second component of a content is here the value of the read under test
+    let val0 = {
+        let c = open(&rn.run_db);
+        reader_call(kind, &c, s)
+    };
+    rn.sum_kind = kind.to_string();
+    rn.out.emit(&json!({"a": "reset", "state": s.name, "op": format!("{}@{}", op.name, kind), "wal": s.wal, "dig": dig, "sum": val0}));
+    rn.exec(s, op, "ref", 0, false, false, &pre);
+    // counting pass of the read alone
+    rn.restore(s, true);
+    let (m, bounds) = {
+        let c = open(&rn.run_db);
+        let mut rc = RCount { steps: 0, bounds: vec![] };
+        unsafe {
+            ffi::sqlite3_progress_handler(c.handle(), 1, Some(rcount_progress), &mut rc as *mut _ as *mut c_void);
+            ffi::sqlite3_trace_v2(c.handle(), ffi::SQLITE_TRACE_STMT as c_uint, Some(rcount_trace), &mut rc as *mut _ as *mut c_void);
+        }
+        let _ = reader_call(kind, &c, s);
+        unsafe {
+            ffi::sqlite3_progress_handler(c.handle(), 0, None, std::ptr::null_mut());
+            ffi::sqlite3_trace_v2(c.handle(), 0, None, std::ptr::null_mut());
+        }
+        (rc.steps, rc.bounds)
+    };
+    let mut set = BTreeSet::new();
+    let mut b = bounds.clone();
+    b.shuffle(rng);
+    for k in b.into_iter().take(if quick { 14 } else { 400 }) {
+        set.insert(k + 1);
+        if k >= 1 {
+            set.insert(k);
+        }
+    }
+    for _ in 0..(if quick { 10 } else { 300 }) {
+        if m > 0 {
+            set.insert(rng.gen_range(1..=m));
+        }
+    }
+    set.insert(1);
+    set.insert(m);
+    let js: Vec<u64> = match only_k {
+        Some(k) => vec![k],
+        None => set.into_iter().filter(|k| *k >= 1 && *k <= m).collect(),
+    };
+    for j in js {
+        rn.restore(s, true);
+        let reader = open(&rn.run_db);
+        rn.out.emit(&json!({"a": "rbegin", "at": j}));
+        let mut steps = 0u64;
+        let mut wres: Option<String> = None;
+        let val = {
+            let mut cb = || -> bool {
+                steps += 1;
+                if steps == j {
+                    let ex = rn.exec(s, op, "plain", 0, false, false, &pre);
+                    wres = Some(ex.res);
+                }
+                false
+            };
+            let mut dynref: &mut dyn FnMut() -> bool = &mut cb;
+            unsafe { ffi::sqlite3_progress_handler(reader.handle(), 1, Some(dyn_progress), &mut dynref as *mut _ as *mut c_void) };
+            let v = reader_call(kind, &reader, s);
+            unsafe { ffi::sqlite3_progress_handler(reader.handle(), 0, None, std::ptr::null_mut()) };
+            v
+        };
+        rn.out.emit(&json!({"a": "rread", "kind": "summary", "val": val}));
+        rn.out.emit(&json!({"a": "rend"}));
+        drop(reader);
+        rn.reader_interleavings += 1;
+        if wres.as_deref().map(|r| r != "ok").unwrap_or(false) {
+            // the writer was refused (the reader's lock): the same call again now that the reader is gone
+            rn.exec(s, op, "retry", 0, false, false, &pre);
+        }
+    }
+    rn.sum_kind = "summary".to_string();
 }
 
 fn run_group(rn: &mut Runner, s: &State, op: &OpDef, quick: bool, rng: &mut ChaChaRng, only_k: Option<u64>) {
@@ -1163,11 +1306,14 @@ fn main() {
         err_after_commit: 0,
         fault_absorbed_ok: 0,
         reader_interleavings: 0,
+        sum_kind: "summary".to_string(),
     };
     let mut groups = vec![];
     // static assignment of groups to shards, heaviest first (a scan costs ~40 ms of note-commitment hashing)
     let weight = |op: &str| -> u64 {
         match op {
+            "scan3@summary" => 12,
+            "truncate@summary" | "tip_up@summary" => 3,
             "scan12" => 50,
             "scan3" => 28,
             "scan1" => 20,
@@ -1177,9 +1323,15 @@ fn main() {
         }
     };
     let mut all: Vec<(usize, String)> = vec![];
+    let reader_ops = |s: &State| -> Vec<&'static str> {
+        if s.has_migration { vec![] } else if s.wal { vec!["scan3", "truncate", "tip_up"] } else { vec!["scan3", "truncate"] }
+    };
     for (si, s) in states.iter().enumerate() {
         for op in ops_for(s) {
             all.push((si, op.name.clone()));
+        }
+        for o in reader_ops(s) {
+            all.push((si, format!("{o}@summary")));
         }
     }
     all.sort_by_key(|(si, n)| (std::cmp::Reverse(weight(n)), *si, n.clone()));
@@ -1193,25 +1345,36 @@ fn main() {
         }
     }
     for (si, s) in states.iter().enumerate() {
-        for op in ops_for(s) {
-            if !mine.contains(&(si, op.name.clone())) {
+        let ops = ops_for(s);
+        let mut jobs: Vec<(String, &OpDef, bool)> = ops.iter().map(|o| (o.name.clone(), o, false)).collect();
+        for o in reader_ops(s) {
+            if let Some(op) = ops.iter().find(|x| x.name == o) {
+                jobs.push((format!("{o}@summary"), op, true));
+            }
+        }
+        for (gname, op, reader) in jobs {
+            if !mine.contains(&(si, gname.clone())) {
                 continue;
             }
-            let gh = blake2b_simd::Params::new().hash_length(8).hash(format!("{seed}/{}/{}", s.name, op.name).as_bytes());
+            let gh = blake2b_simd::Params::new().hash_length(8).hash(format!("{seed}/{}/{}", s.name, gname).as_bytes());
             let mut rng = ChaChaRng::seed_from_u64(u64::from_le_bytes(gh.as_bytes().try_into().unwrap()));
             if let Some(o) = &only {
-                if o[0] != s.name || o.get(1).map(|n| *n != op.name).unwrap_or(false) {
+                if o[0] != s.name || o.get(1).map(|n| *n != gname).unwrap_or(false) {
                     continue;
                 }
             }
-            if tier == "self" && !(s.name == "A" && (op.name == "scan3" || op.name == "lock_fail")) {
+            if tier == "self" && !(s.name == "A" && (gname == "scan3" || gname == "lock_fail" || gname == "truncate@summary")) {
                 continue;
             }
             let only_k = only.as_ref().and_then(|o| o.get(2)).and_then(|k| k.parse::<u64>().ok());
             let t = std::time::Instant::now();
             let before = rn.execs;
-            run_group(&mut rn, s, &op, quick, &mut rng, only_k);
-            groups.push(json!({"state": s.name, "op": op.name, "execs": rn.execs - before, "ms": t.elapsed().as_millis() as u64}));
+            if reader {
+                run_reader_group(&mut rn, s, op, "summary", quick, &mut rng, only_k);
+            } else {
+                run_group(&mut rn, s, op, quick, &mut rng, only_k);
+            }
+            groups.push(json!({"state": s.name, "op": gname, "execs": rn.execs - before, "ms": t.elapsed().as_millis() as u64}));
         }
     }
     remove_db(&rn.run_db);
